@@ -656,3 +656,89 @@ def c12_r4(ctx):
         ctx.check(got == [want_n], key(fi, "emitted method"), f"{fi.qualname} does not emit the specified method body; {diff or got[:1]}. (`_H_x` = the generator's parameter x, `_H_variable_names_k` = the "
                   "local that get_variable_names renamed for k; the validated model must be built from what get_data returned for the response of this very call)", fi.loc(),
                   okmsg=f"{fi.qualname}: emitted body as specified")
+
+
+@rule("C04.R15", "import collectors: an import is recorded iff it is given and names something - after the plugin hook had its say; nothing else decides", min_instances=16,
+      also=["C14", "C15", "C02"])
+def c04_r15(ctx):
+    repo = ctx.repo
+    sites = [("client_generators.client:ClientGenerator._add_import", "self._imports.append", True), ("client_generators.custom_fields:CustomFieldsGenerator._add_import", "self._imports.append", False),
+             ("client_generators.custom_operation:CustomOperationGenerator._add_import", "self._imports.append", True), ("client_generators.custom_arguments:ArgumentGenerator._add_import", "self.imports.append", False)]
+    for fk, sink, needs_module in sites:
+        fi = repo.func(fk)
+        p = real_params(fi)[0]
+        for given, plugins, names, module in ((False, False, True, True), (True, False, True, True), (True, True, True, True), (True, False, False, True), (True, False, True, False)):
+            def atom(e, given=given, plugins=plugins, names=names, module=module):
+                t = norm(strip_pre(e))
+                if t in (p, f"{p} is not None"):
+                    return given
+                if t in (f"not {p}", f"{p} is None"):
+                    return not given
+                if t == "self.plugin_manager":
+                    return plugins
+                if t.endswith(".names"):
+                    return names
+                if t.endswith(".module"):
+                    return module
+                return None
+            outs = Interp(fi, atom, is_effect=lambda c, sink=sink: norm(c.func) == sink).run()
+            recorded = [[norm(strip_pre(e)) for e in o.effects] for o in outs]
+            expect = given and names and (module or not needs_module)
+            if not module and not needs_module:
+                continue
+            if expect:
+                what = f"{sink}(self.plugin_manager.generate_client_import({p}))" if plugins else f"{sink}({p})"
+                good = bool(recorded) and all(r in ([what], [what.replace(f"({p}))", f"(import_={p}))")]) for r in recorded)
+            else:
+                good = bool(recorded) and all(not r for r in recorded)
+            ctx.check(good, key(fi, f"given={given} plugins={plugins} names={names} module={module}"),
+                      f"{fi.qualname}[import given={given}, plugins={plugins}, has names={names}, has module={module}] records {recorded}; expected "
+                      f"{'the import (as returned by the plugin hook)' if expect and plugins else 'the import' if expect else 'nothing'}: a dropped import is a NameError in the generated module", fi.loc(),
+                      okmsg=f"{fi.qualname}: given={given} plugins={plugins} names={names} module={module} -> {'recorded' if expect else 'skipped'}")
+
+
+@rule("C14.R13", "with custom operations the client class gets execute_custom_operation, its four helpers and the imports they use; query / mutation entry points match the client flavour",
+      min_instances=5, also=["C04", "C12"])
+def c14_r13(ctx):
+    repo = ctx.repo
+    CG2 = "client_generators.client:ClientGenerator."
+    fi = repo.func(CG2 + "add_execute_custom_operation_method")
+    eff = lambda c: norm(c.func) in ("self._class_def.body.append", "self._add_import")
+    outs = Interp(fi, lambda e: None, is_effect=eff).run()
+    good = len(outs) == 1
+    if good:
+        effs = [strip_pre(e) for e in outs[0].effects]
+        apps = [norm(allargs(e)[0]) for e in effs if norm(e.func) == "self._class_def.body.append" and allargs(e)]
+        imps = [allargs(e)[0] for e in effs if norm(e.func) == "self._add_import" and allargs(e)]
+        want_apps = ["self.create_execute_custom_operation_method(async_client=async_client)", "self.create_combine_variables_method()", "self.create_build_variable_definitions_method()",
+                     "self.create_build_operation_ast_method()", "self.create_build_selection_set()"]
+        ctx.check(sorted(apps) == sorted(want_apps), key(fi, "methods"), f"the client class gets {apps}; expected the executor and its four helpers (a missing helper is an AttributeError on the first custom operation)", fi.loc(),
+                  okmsg="executor + combine_variables + build_variable_definitions + build_operation_ast + build_selection_set appended")
+        names = set()
+        mods = {}
+        for i in imps:
+            nl = argv(i, 0, "names")
+            fr = argv(i, 1, "from_")
+            for e in getattr(nl, "elts", []):
+                names.add(str(norm(e)).strip("'"))
+                mods[str(norm(e)).strip("'")] = (norm(fr) if fr is not None else None, norm(kw(i, "level")) if kw(i, "level") is not None else "0")
+        need = {"DocumentNode", "OperationDefinitionNode", "NameNode", "SelectionSetNode", "print_ast", "VariableDefinitionNode", "VariableNode", "NamedTypeNode", "SelectionNode", "GraphQLField", "Dict", "Tuple", "List", "Any"}
+        ctx.check(need <= names, key(fi, "imports"), f"names used by the emitted helpers but not imported: {sorted(need - names)}", fi.loc(), okmsg=f"{len(need)} names used by the helpers are imported")
+        gf = mods.get("GraphQLField")
+        ctx.check(gf is not None and gf[1] == "1" and gf[0] in ("BASE_OPERATION_FILE_PATH.stem", "'base_operation'"), key(fi, "GraphQLField import"), f"GraphQLField is imported from {gf}; expected the sibling module base_operation (level 1)", fi.loc(),
+                  okmsg="GraphQLField <- .base_operation")
+    else:
+        ctx.fail(key(fi, "methods"), f"{len(outs)} paths through add_execute_custom_operation_method", fi.loc())
+    cm = repo.func(CG2 + "create_custom_operation_method")
+    for asy in (True, False):
+        outs = Interp(cm, lambda e, asy=asy: (asy if norm(strip_pre(e)) == "async_client" else (not asy) if norm(strip_pre(e)) == "not async_client" else None), is_effect=eff).run()
+        good = bool(outs)
+        for o in outs:
+            effs = [strip_pre(e) for e in o.effects]
+            apps = [norm(strip_pre(o.deref(allargs(e)[0])) if isinstance(allargs(e)[0], ast.Name) else allargs(e)[0]) for e in effs if norm(e.func) == "self._class_def.body.append" and allargs(e)]
+            imps = [norm(allargs(e)[0]) for e in effs if norm(e.func) == "self._add_import" and allargs(e)]
+            builder = "self._create_async_operation_method" if asy else "self._create_sync_operation_method"
+            good = good and len(apps) == 1 and apps[0] in (f"{builder}(name=name, operation_type=operation_type)", f"{builder}(name, operation_type)") and \
+                any("OPERATION_TYPE" in i.replace("'OperationType'", "OPERATION_TYPE") and ("GRAPHQL_MODULE" in i or "'graphql'" in i) for i in imps)
+        ctx.check(good, key(cm, f"async={asy}"), f"[async client={asy}] the entry point must be built by the {'async' if asy else 'sync'} builder with (name, operation_type), appended to the class, and OperationType imported: "
+                  f"{[o.text()[:140] for o in outs][:1]}", cm.loc(), okmsg=f"async={asy}: entry point built by the matching builder, appended, OperationType imported")
